@@ -71,6 +71,7 @@ func init() {
 	registerFamily("C08", C08)
 	registerFamily("C16", C16)
 	registerFamily("C15", C15)
+	registerFamily("C12", C12)
 }
 
 var _ = engine.VerifDir
